@@ -1156,7 +1156,25 @@ RCP<const Set> FiniteSet::set_complement(const RCP<const Set> &o) const
         set_basic rest;
         bool left_open = other.get_left_open(),
              right_open = other.get_right_open();
-        for (auto it = container_.begin(); it != container_.end(); it++) {
+        // the loop below needs the real numbers in increasing order
+        // (container_ is ordered by hash); everything else goes first
+        vec_basic elems, reals_sorted;
+        for (const auto &a : container_) {
+            if (is_a_Number(*a)
+                and not down_cast<const Number &>(*a).is_complex()) {
+                reals_sorted.push_back(a);
+            } else {
+                elems.push_back(a);
+            }
+        }
+        std::sort(reals_sorted.begin(), reals_sorted.end(),
+                  [](const RCP<const Basic> &x, const RCP<const Basic> &y) {
+                      return down_cast<const Number &>(*x)
+                          .sub(down_cast<const Number &>(*y))
+                          ->is_negative();
+                  });
+        elems.insert(elems.end(), reals_sorted.begin(), reals_sorted.end());
+        for (auto it = elems.begin(); it != elems.end(); it++) {
             if (eq(*max({*it, other.get_start()}), *other.get_start())) {
                 if (eq(**it, *other.get_start()))
                     left_open = true;
